@@ -1,5 +1,6 @@
 """C13 -- results do not depend on how the byte sink and source split transfers (clause level)."""
 from ..core import *
+from .. import census
 
 EXPLANATION = ("Static MIR census over the workspace (mla, mlar, mla-bindings-c): (R13.1) every raw std::io::Write::write call sits in an `impl Write::write` "
                "whose returned count must-derives from that call's result (pass-through), and no field of self is updated from the requested length "
@@ -211,6 +212,42 @@ def run(prog, rep, tier):
                 rep.ob('R13.3', ok, 'R13.3|%s|chunk-load-complete' % body.nkey, 'chunk buffer filled by read_to_end(take(inner, constant))' if ok else
                        'the chunk handed to the cipher is not filled by read_to_end on a bounded take of the inner reader', body.loc(b.idx))
     rep.floor('R13.3.chunk', nd, 2, 'decrypt sites in the encryption layer')
+
+    # ---------------- R13.5 a block decompressor always starts from an absolute position of the inner layer
+    # (how many compressed bytes the previous decompressor actually pulled from its source depends on how the source splits its reads: the next
+    # block must not start "where the previous one stopped")
+    nsite = 0
+    for body in mla.bodies:
+        if 'layers::compress::' not in body.nkey:
+            continue
+        for b in body.calls():
+            if not cnorm(b.term).endswith('CompressionLayerReader::new_decompressor_at'):
+                continue
+            nsite += 1
+            rep.fn(body)
+            t = b.term
+            inner_l = origins(body, [t.args[1].place[0]], through_calls=False).locals if t.args[1].place is not None else set()
+            ok = False
+            why = 'no dominating sync_inner_with_uncompressed_pos on the same inner reader and position'
+            for sb in body.calls():
+                if not cnorm(sb.term).endswith('sync_inner_with_uncompressed_pos') or not body.dominates(sb.idx, b.idx) or sb.idx == b.idx:
+                    continue
+                st = sb.term
+                sl = origins(body, [st.args[1].place[0]], through_calls=False).locals if st.args[1].place is not None else set()
+                same_inner = bool({l for l in sl if not body.lty(l).startswith('&')} & {l for l in inner_l if not body.lty(l).startswith('&')})
+                same_pos = census.canon(body, st.args[2]) == census.canon(body, t.args[2]) and not census.written_between(body, sb.idx, b.idx, census.canon(body, t.args[2]))
+                # nothing reads from the inner reader between the seek and the construction
+                between = [x for x in body.calls() if body.dominates(sb.idx, x.idx) and body.dominates(x.idx, b.idx) and x.idx not in (sb.idx, b.idx) and
+                           x.term.ctrait in ('std::io::Read', 'std::io::Seek') and any(a.place is not None and origins(body, [a.place[0]], through_calls=False).locals & sl for a in x.term.args)]
+                if same_inner and same_pos and not between:
+                    ok = True
+                else:
+                    why = 'sync found but inner=%s position=%s untouched-between=%s' % (same_inner, same_pos, not between)
+            rep.ob('R13.5', ok, 'R13.5|%s|new_decompressor_at#%d|inner-positioned-absolutely' % (body.nkey, nsite),
+                   'the inner reader is seeked to the block start (sync_inner_with_uncompressed_pos) right before the decompressor is built on it' if ok else
+                   'a block decompressor is built on an inner reader that was not positioned absolutely (%s): where the previous decompressor stopped reading depends on the '
+                   'sizes of the reads its source served, so a short-reading source shifts the next block' % why, body.loc(b.idx))
+    rep.floor('R13.5', nsite, 2, 'constructions of a block decompressor')
 
     # ---------------- R13.4 no decoder-produced zero count mid-stream
     for body in mla.bodies:
